@@ -2,28 +2,73 @@ pub mod common;
 pub mod c06;
 pub mod qrig;
 pub mod c05;
+#[cfg(feature = "alloc")]
 pub mod c05_drv;
+#[cfg(feature = "alloc")]
 pub mod c19;
 pub mod c07;
+#[cfg(feature = "alloc")]
 pub mod c07_drv;
 pub mod c10;
 pub mod c12;
 pub mod c11;
 pub mod c11_hyp;
 pub mod c14;
+#[cfg(feature = "alloc")]
 pub mod c15;
 pub mod c13;
 pub mod c16;
+#[cfg(feature = "alloc")]
 pub mod c18;
+#[cfg(feature = "alloc")]
 pub mod c17;
+#[cfg(feature = "alloc")]
 pub mod drivers9;
+#[cfg(feature = "alloc")]
 pub mod c09;
+#[cfg(feature = "alloc")]
 pub mod drivers;
+#[cfg(feature = "alloc")]
 pub mod c08;
+#[cfg(feature = "alloc")]
 pub mod c20_gpu;
 pub mod c20_misc;
+#[cfg(feature = "alloc")]
 pub mod c20_snd;
 use crate::Ctx;
+/// The alloc-less build of the crate (`--no-default-features`): the queue core, blk, raw net, rng / rtc and the transports.
+/// Every scenario of this build starts with a kind-3 line (trace.rs), which makes the runner replay it through
+/// Model/QueueNoAlloc.v.
+#[cfg(not(feature = "alloc"))]
+pub fn run(prop: &str, ctx: &mut Ctx) -> bool {
+    match prop {
+        "C01" | "C02" | "C03" | "C04" => {
+            let n = ctx.budget(72, 12); qrig::standard_histories(ctx, &format!("{}-noalloc", prop.to_lowercase()), n);
+            qrig::noalloc_directed(ctx, &prop.to_lowercase());
+            if prop == "C03" && ctx.tier_thorough {
+                ctx.tr.scenario("c03-noalloc-soak-n4"); qrig::soak::<4>(ctx, 1, 70_000);
+                ctx.tr.scenario("c03-noalloc-soak-n8-eventidx"); qrig::soak::<8>(ctx, 3, 70_000);
+            }
+            if prop == "C04" {
+                c06::run_alloc_faults(ctx); c10::run_directed(ctx);
+                for f in 0..4u8 { ctx.tr.scenario(&format!("c04-noalloc-anwp-refused-f{}", f)); qrig::anwp_refused::<4>(ctx, f); qrig::anwp_refused::<16>(ctx, f); }
+            }
+        }
+        "C05" => c05::run(ctx),
+        "C06" => c06::run(ctx),
+        "C07" => c07::run(ctx),
+        "C10" => c10::run(ctx),
+        "C11" => c11::run(ctx),
+        "C12" => c12::run(ctx),
+        "C13" => c13::run(ctx),
+        "C14" => c14::run(ctx),
+        "C16" => c16::run(ctx),
+        "C20" => c20_misc::run(ctx),
+        _ => return false,
+    }
+    true
+}
+#[cfg(feature = "alloc")]
 pub fn run(prop: &str, ctx: &mut Ctx) -> bool {
     match prop {
         // C06 also at register level: what the MMIO transport programs into the device for a queue that is created, torn down
